@@ -75,9 +75,12 @@ def inputs(arity: int, n: int, wide: str | None = None) -> list:
     if wide:
         # every statement needs three distinct prefixes ("prefixes") or two distinct datatypes ("datatypes") at once
         out = []
-        for i in range(n):
+        for i in range(n if wide != "datatype-churn" else 14):
             if wide == "prefixes":
                 st = [("iri", f"http://a{i}.example/s"), ("iri", f"http://b{i}.example/p"), ("iri", f"http://c{i}.example/o")]
+            elif wide == "datatype-churn":
+                # five datatypes used round-robin and revisited: with 2-4 slots every one is evicted and comes back
+                st = [("iri", "http://ex.org/s"), ("iri", "http://ex.org/p"), ("lit", str(i), None, f"http://ex.org/dt/churn{(i * 3) % 5}")]
             else:
                 st = [("lit", "1", None, f"http://ex.org/dt/a{i}"), ("iri", "http://ex.org/p"), ("lit", "2", None, f"http://ex.org/dt/b{i}")]
             if arity == 4:
@@ -151,8 +154,11 @@ def enumerate_configs(tier: str):
     # datatypes at once), from the first statement on: accepted configurations must still give the input back
     for (ename, integ, explicit), delimited, fs, n in itertools.product(ENTRIES, (True, False), (1, 250), (1, 3)):
         for wide, presets in (("prefixes", [(8, 1, 8), (8, 2, 8), (8, 3, 8), (8, 4, 8), (16, 0, 8)]),
-                              ("datatypes", [(8, 8, 1), (8, 8, 2), (8, 8, 3)])):
+                              ("datatypes", [(8, 8, 1), (8, 8, 2), (8, 8, 3)]),
+                              ("datatype-churn", [(8, 8, 2), (8, 8, 3), (8, 8, 4), (8, 8, 5)])):
             if wide == "datatypes" and integ != "generic":
+                continue
+            if wide == "datatype-churn" and n == 1:
                 continue
             for preset in presets:
                 for phys, arity in ([(1, 3), (2, 4)] if explicit else [(0, 3), (0, 4)]):
